@@ -22,6 +22,16 @@ CHANGE = {
  'C16a': ("martian/core/runtime.go fixExpressionTypes", "element type of typed maps of arrays computed with the wrong dimension: map members of structs inside map<S[]> arrive as struct literals"),
  'C17a': ("martian/syntax/collection_types.go ArrayType.FilterJson", "for Dim>1 the 'changed' flag of an inner array is overwritten by the last entry: a filtered non-last entry is returned unfiltered"),
  'C18a': ("martian/core/jobmanager_remote.go jobScript", "template placeholders are substituted sequentially instead of in one pass: a value containing a later placeholder token is rewritten"),
+ 'C01b': ("martian/syntax/resolve_expression.go ArrayExp.filter", "the 'changed' flag of array-literal narrowing is overwritten per element: a literal of wide structs whose last element is null or a reference reaches a narrower struct[] parameter unfiltered"),
+ 'C02b': ("martian/core/node.go Node.setPrenode", "a preflight prerequisite is only recorded for nodes that have no prerequisite yet: with two preflights, or an inner pipeline's own preflight, jobs start while the later preflight is still running"),
+ 'C03b': ("martian/syntax/resolve_stage.go CallGraphStage.resolveForks", "fork roots no longer come from disable bindings: a call whose disabled modifier (but none of its inputs) depends on the mapped element gets a single fork"),
+ 'C04b': ("martian/core/storage.go Fork.partialVdrKill", "a Failed consumer counts as finished: the producer's files are removed while the consumer is waiting to be retried"),
+ 'C05b': ("martian/core/metadata.go Metadata.restartLocal", "a queued local job is only reset on reattach when _queued_locally exists: a job killed between that file's removal and mrjob's first write is waited on forever"),
+ 'C06b': ("martian/core/metadata.go Metadata.checkedReset", "per-job reset applies to every job that is not complete instead of failed jobs only: an in-process auto-retry wipes and re-runs jobs of independent calls that are still running"),
+ 'C11b': ("martian/core/metadata.go Metadata.uncheckedReset", "the uniquifier is not cleared before uniquify(): a reset job reuses the directory and journal name of the attempt it replaces, so a straggler's notification is credited to the new attempt"),
+ 'C12b': ("martian/core/resource_semaphore.go UpdateFreeUsed", "sign error in the over-use adjustment: observed usage above the reservation raises the reservable size above the configured limit"),
+ 'C13b': ("martian/core/post_process.go copyOutSymlink", "later hops of a relative symlink chain are resolved against the directory of the first link: the path recorded in the final _outs does not exist"),
+ 'C14b': ("martian/core/storage.go Fork.partialVdrKill", "a Disabled consumer no longer counts as finished: files of a volatile producer whose only consumer was disabled at run time are never reclaimed"),
  'C19a': ("martian/syntax/refactoring/rename_callable.go updateRef", "projection references are matched by name prefix: renaming output 'res' also rewrites CALL.res_alt.a"),
 }
 matrix = collections.defaultdict(list)
